@@ -292,6 +292,10 @@ class TabControl(HtmlControl):
     )
 
   def _tab_button(self, tab: Tab, i: int) -> Html:
+    def _js_str(s: str) -> str:
+      # The ids are written into single-quoted JavaScript string literals.
+      return Html.escape(s, javascript_str=True).replace("'", "\\'")
+
     return Html.element(
         'button',
         [
@@ -302,7 +306,7 @@ class TabControl(HtmlControl):
             'selected' if i == self.selected else None
         ] + tab.css_classes,
         onclick=(
-            f"""openTab(event, '{self.element_id()}', '{self.element_id(str(i))}')"""
+            f"""openTab(event, '{_js_str(self.element_id())}', '{_js_str(self.element_id(str(i)))}')"""
         )
     )
 
